@@ -130,4 +130,203 @@ theorem doctypePrefix_decl (nl bl d rest : Str)
     rw [← List.append_assoc, List.take_append_drop]
   simp [this]
 
+/-! ### the complementary case: an explicit and a decidable reading of `DOCTYPE_MATCH.match` -/
+
+/-- what is left after `[\n]*[ \t]*` -/
+def skipNlBl (s : Str) : Str := (s.dropWhile isNl).dropWhile isBl
+
+/-- **decidable** reading of `DOCTYPE_MATCH.match(s) is not None`: after the newlines and then the blanks comes
+    `<!`, seven letters that spell `doctype` in either case, and somewhere later a `>` -/
+def startsWithDoctype (s : Str) : Bool :=
+  match skipNlBl s with
+  | '<' :: '!' :: r3 => lower (r3.take 7) = "doctype".toList && (r3.drop 7).contains '>'
+  | _ => false
+
+/-- **explicit** reading: `s = p ++ rest` where `p` is newlines, blanks and one doctype declaration that ends at
+    its first `>` -/
+def DoctypeSplit (s p rest : Str) : Prop :=
+  ∃ nl bl d, (∀ x ∈ nl, isNl x = true) ∧ (∀ x ∈ bl, isBl x = true) ∧
+    lower (d.take 7) = "doctype".toList ∧ '>' ∉ d ∧
+    p = nl ++ bl ++ ('<' :: '!' :: d ++ ['>']) ∧ s = p ++ rest
+
+def DoctypeStart (s : Str) : Prop := ∃ p rest, DoctypeSplit s p rest
+
+theorem doctypePrefix_eq (s : Str) : doctypePrefix s =
+    (match skipNlBl s with
+     | '<' :: '!' :: r3 =>
+       if lower (r3.take 7) = "doctype".toList then
+         match takeThrough '>' (r3.drop 7) with
+         | some (a, b) =>
+           some (s.takeWhile isNl ++ (s.dropWhile isNl).takeWhile isBl ++ ('<' :: '!' :: r3.take 7) ++ a, b)
+         | none => none
+       else none
+     | _ => none) := rfl
+
+theorem takeThrough_none (q : Char) (l : Str) (h : q ∉ l) : takeThrough q l = none := by
+  induction l with
+  | nil => rfl
+  | cons c cs ih =>
+    have hc : c ≠ q := fun e => h (by simp [e])
+    have hcs : q ∉ cs := fun e => h (by simp [e])
+    simp [takeThrough, hc, ih hcs]
+
+/-- the first occurrence -/
+theorem split_first (q : Char) (l : Str) (h : q ∈ l) : ∃ v b, l = v ++ q :: b ∧ q ∉ v := by
+  induction l with
+  | nil => simp at h
+  | cons c cs ih =>
+    by_cases hc : c = q
+    · exact ⟨[], cs, by simp [hc], by simp⟩
+    · have hcs : q ∈ cs := by
+        rcases List.mem_cons.mp h with e | e
+        · exact absurd e.symm hc
+        · exact e
+      obtain ⟨v, b, hv, hn⟩ := ih hcs
+      refine ⟨c :: v, b, by simp [hv], ?_⟩
+      intro hm
+      rcases List.mem_cons.mp hm with e | e
+      · exact hc e.symm
+      · exact hn e
+
+theorem gt_not_mem_of_lower (l : Str) (h : lower l = "doctype".toList) : '>' ∉ l := by
+  intro hm
+  have : lowerChar '>' ∈ lower l := List.mem_map_of_mem hm
+  rw [h] at this
+  revert this
+  decide
+
+theorem length_of_lower_doctype (l : Str) (h : lower l = "doctype".toList) : l.length = 7 := by
+  have h2 := congrArg List.length h
+  simpa [lower] using h2
+
+theorem doctypePrefix_of_split (s p rest : Str) (h : DoctypeSplit s p rest) : doctypePrefix s = some (p, rest) := by
+  obtain ⟨nl, bl, d, hnl, hbl, hd, hgt, hp, hs⟩ := h
+  have := doctypePrefix_decl nl bl d rest hnl hbl hd hgt
+  rw [hs, hp]
+  simpa using this
+
+theorem skip_decomp (s : Str) :
+    s = s.takeWhile isNl ++ ((s.dropWhile isNl).takeWhile isBl ++ skipNlBl s) := by
+  unfold skipNlBl
+  rw [List.takeWhile_append_dropWhile, List.takeWhile_append_dropWhile]
+
+theorem split_of_doctypePrefix (s p rest : Str) (h : doctypePrefix s = some (p, rest)) : DoctypeSplit s p rest := by
+  rw [doctypePrefix_eq] at h
+  have hdec := skip_decomp s
+  split at h
+  · rename_i r3 hr
+    split at h
+    · rename_i hd
+      split at h
+      · rename_i a b ht
+        simp only [Option.some.injEq, Prod.mk.injEq] at h
+        obtain ⟨hp, hb⟩ := h
+        -- the first `>` after the seven letters
+        have hmem : '>' ∈ r3.drop 7 := by
+          apply Classical.byContradiction
+          intro hn
+          rw [takeThrough_none _ _ hn] at ht
+          exact absurd ht (by simp)
+        obtain ⟨v, b', hv, hnv⟩ := split_first '>' _ hmem
+        rw [hv, takeThrough_append '>' v b' hnv] at ht
+        simp only [Option.some.injEq, Prod.mk.injEq] at ht
+        obtain ⟨ha, hb'⟩ := ht
+        have h7 := length_of_lower_doctype _ hd
+        refine ⟨s.takeWhile isNl, (s.dropWhile isNl).takeWhile isBl, r3.take 7 ++ v,
+          fun x hx => mem_takeWhile_sat _ x hx, fun x hx => mem_takeWhile_sat _ x hx, ?_, ?_, ?_, ?_⟩
+        · rw [List.take_append_of_le_length (by omega), List.take_take]
+          simpa using hd
+        · intro hm
+          rcases List.mem_append.mp hm with e | e
+          · exact gt_not_mem_of_lower _ hd e
+          · exact hnv e
+        · rw [← hp, ← ha]; simp
+        · have hr3 : r3 = r3.take 7 ++ (v ++ '>' :: rest) := by
+            rw [← hb, ← hb', ← hv, List.take_append_drop]
+          rw [← hp, ← ha]
+          conv => lhs; rw [hdec, hr, hr3]
+          simp
+      · simp at h
+    · simp at h
+  · simp at h
+
+theorem doctypePrefix_some_iff (s p rest : Str) : doctypePrefix s = some (p, rest) ↔ DoctypeSplit s p rest :=
+  ⟨split_of_doctypePrefix s p rest, doctypePrefix_of_split s p rest⟩
+
+/-- the matched prefix and the remainder are determined by the text -/
+theorem doctypeSplit_unique (s p rest p' rest' : Str) (h : DoctypeSplit s p rest) (h' : DoctypeSplit s p' rest') :
+    p' = p ∧ rest' = rest := by
+  have e := doctypePrefix_of_split s p rest h
+  rw [doctypePrefix_of_split s p' rest' h'] at e
+  simp only [Option.some.injEq, Prod.mk.injEq] at e
+  exact e
+
+theorem doctypePrefix_none_of_not (s : Str) (h : startsWithDoctype s = false) : doctypePrefix s = none := by
+  rw [doctypePrefix_eq]
+  unfold startsWithDoctype at h
+  split
+  · rename_i r3 hr
+    rw [hr] at h
+    simp only [Bool.and_eq_false_iff, decide_eq_false_iff_not] at h
+    split
+    · rename_i hd
+      rcases h with h | h
+      · exact absurd hd h
+      · have hn : '>' ∉ r3.drop 7 := by
+          intro hm
+          have : (r3.drop 7).contains '>' = true := by simpa using hm
+          rw [this] at h; simp at h
+        rw [takeThrough_none _ _ hn]
+    · rfl
+  · rfl
+
+theorem startsWithDoctype_of_prefix (s : Str) (p : Str × Str) (h : doctypePrefix s = some p) :
+    startsWithDoctype s = true := by
+  cases hb : startsWithDoctype s with
+  | true => rfl
+  | false => rw [doctypePrefix_none_of_not s hb] at h; simp at h
+
+theorem doctypePrefix_none_iff (s : Str) : doctypePrefix s = none ↔ startsWithDoctype s = false := by
+  constructor
+  · intro h
+    cases hb : startsWithDoctype s with
+    | false => rfl
+    | true =>
+      exfalso
+      cases hp : doctypePrefix s with
+      | some p => rw [hp] at h; simp at h
+      | none =>
+        -- a text on which the decidable reading says yes has a split
+        unfold startsWithDoctype at hb
+        rw [doctypePrefix_eq] at hp
+        split at hb
+        · rename_i r3 hr
+          simp only [Bool.and_eq_true, decide_eq_true_eq] at hb
+          obtain ⟨hd, hc⟩ := hb
+          have hmem : '>' ∈ r3.drop 7 := by simpa using hc
+          obtain ⟨v, b', hv, hnv⟩ := split_first '>' _ hmem
+          rw [hr] at hp
+          simp only [hd, if_true, hv, takeThrough_append '>' v b' hnv] at hp
+          simp at hp
+        · simp at hb
+  · exact doctypePrefix_none_of_not s
+
+/-- the decidable reading and the explicit one agree -/
+theorem startsWithDoctype_iff (s : Str) : startsWithDoctype s = true ↔ DoctypeStart s := by
+  constructor
+  · intro h
+    cases hp : doctypePrefix s with
+    | none => rw [(doctypePrefix_none_iff s).mp hp] at h; simp at h
+    | some p => exact ⟨p.1, p.2, split_of_doctypePrefix s p.1 p.2 hp⟩
+  · rintro ⟨p, rest, h⟩
+    exact startsWithDoctype_of_prefix s _ (doctypePrefix_of_split s p rest h)
+
+/-- the wrapper's tags as `feed` writes them: `INVISIBLE_ROOT_TAG_START`, `INVISIBLE_ROOT_TAG_END` -/
+def wrapOpen : Str := '<' :: wrapperName ++ ['>']
+def wrapClose : Str := '<' :: '/' :: wrapperName ++ ['>']
+
+theorem wrapStr_eq (s : Str) : wrapStr s = addStartTagStr s wrapOpen ++ wrapClose := rfl
+
+instance (s : Str) : Decidable (DoctypeStart s) := decidable_of_iff _ (startsWithDoctype_iff s)
+
 end AHP
